@@ -51,6 +51,7 @@ class AsyncRequest {
    **/
   void requestUpdate() {
     RequestState state = kNone;
+    DISPENSO_VERIF_POINT("ReqCas", this);
     state_.compare_exchange_strong(state, kNeedsUpdate, std::memory_order_acq_rel);
   }
 
@@ -60,6 +61,7 @@ class AsyncRequest {
    * @return true if an update is required, false otherwise.
    **/
   bool updateRequested() const {
+    DISPENSO_VERIF_POINT("ChkLd", this);
     return state_.load(std::memory_order_acquire) == kNeedsUpdate;
   }
 
@@ -74,10 +76,13 @@ class AsyncRequest {
   template <typename... Args>
   bool tryEmplaceUpdate(Args&&... args) {
     RequestState state = kNeedsUpdate;
+    DISPENSO_VERIF_POINT("EmplCas", this);
     if (!state_.compare_exchange_strong(state, kUpdating, std::memory_order_acq_rel)) {
       return false;
     }
+    DISPENSO_VERIF_POINT("EmplObj", this);
     obj_.emplace(std::forward<Args>(args)...);
+    DISPENSO_VERIF_POINT("EmplSt", this);
     state_.store(kReady, std::memory_order_release);
     return true;
   }
@@ -89,8 +94,11 @@ class AsyncRequest {
    * no underlying data.
    **/
   OpResult getUpdate() {
+    DISPENSO_VERIF_POINT("GetClaim", this);
     if (state_.load(std::memory_order_acquire) == kReady) {
+      DISPENSO_VERIF_POINT("GetMove", this);
       auto obj = std::move(obj_);
+      DISPENSO_VERIF_POINT("GetSt", this);
       state_.store(kNone, std::memory_order_release);
       return obj;
     }
